@@ -11,11 +11,22 @@ func init() {
 		// Because there is overlap between operators (like "*" and "**") we have to
 		// ensure that some ordering is forced.
 		if op != "**" && op != "is not" && op != "//" && op != "not in" && op != ">=" && op != "<=" {
-			ops = append(ops, regexp.QuoteMeta(op))
+			ops = append(ops, operatorPattern(op))
 		}
 	}
 	// Additionally, we add the unary "not" operator since it has no binary counterpart.
-	operatorMatcher = regexp.MustCompile(`^(not in|not|\*\*|is not|//|>=|<=|` + strings.Join(ops, "|") + ")")
+	operatorMatcher = regexp.MustCompile(`^(` + operatorPattern("not in") + `|not|\*\*|` + operatorPattern("is not") + `|//|>=|<=|` + strings.Join(ops, "|") + ")")
+}
+
+// operatorPattern returns a regular expression that matches op. The words of
+// an operator such as "not in" or "starts with" may be separated by any amount
+// of white space, like any other two words inside a tag.
+func operatorPattern(op string) string {
+	words := strings.Fields(op)
+	for i, w := range words {
+		words[i] = regexp.QuoteMeta(w)
+	}
+	return strings.Join(words, `[ \t\r\n]+`)
 }
 
 var operatorMatcher *regexp.Regexp
